@@ -20,8 +20,9 @@ import (
 type Ctx struct {
 	P    *load.Program
 	R    *report.Run
-	Tier string
-	mu   sync.Mutex
+	Tier  string
+	mu    sync.Mutex
+	namer *absint.Analyzer
 }
 
 // Check is a property driver.
@@ -182,6 +183,7 @@ type E1Result struct {
 	A         *absint.Analyzer
 	Undecided []string
 	Wall      float64
+	Recv      absint.Term // first argument of the entry (receiver), if any
 }
 
 // Pre prepares the entry state; nil means arbitrary arguments.
@@ -211,6 +213,9 @@ func (c *Ctx) RunE1(entries []*ssa.Function, opaqueCross bool, pre Pre) []*E1Res
 				var args []absint.Term
 				for _, p := range fn.Params {
 					args = append(args, a.Unknown(p.Type(), p.Name(), st))
+				}
+				if len(args) > 0 {
+					r.Recv = args[0]
 				}
 				if pre != nil {
 					pre(a, fn, st, args)
@@ -304,4 +309,15 @@ func (c *Ctx) E1Assumptions() {
 		"compiler-generated range-over-func protocol panics are exempt",
 		"error-typed package variables assigned once in their initialiser from errors.New are non-nil (checked per variable)",
 	)
+}
+
+// constructOf names a source construct (expression text + occurrence index), line-independent.
+func (c *Ctx) constructOf(fn *ssa.Function, ins ssa.Instruction) string {
+	c.mu.Lock()
+	if c.namer == nil {
+		c.namer = absint.New(c.P)
+	}
+	n := c.namer
+	c.mu.Unlock()
+	return n.Construct(fn, ins)
 }
